@@ -382,7 +382,7 @@ def run(R, ctx):
         "Structural necessary conditions of the lowering rules on typed THIR: subset relation between the duplicated-without-temporary "
         "variant tables and has_side_effects' constant-false table, scope-visitor typestate, multi-value guards on hoists, fold direction "
         "for right-nested chains, conservative treatment of unknown truthiness, collision-checked temporaries. Behavioural equivalence "
-        "itself (e.g. `continue` lowering inside repeat-until) is not decided."
+        "itself (e.g. `continue` lowering inside repeat-until) is not decided. Decision / transfer functions among these are decided by finite-domain evaluation of their typed tree (sa/peval.py): every point of a small abstract domain is evaluated and compared with the reference; nothing is sampled and no program input exists."
     )
     R.assumptions += ["Evaluator::has_side_effects / can_return_multiple_values are trusted as analyses (tables checked under C08)"]
     dup(R, ctx)
